@@ -290,7 +290,14 @@ func runChain(out *sink, op string, validateOnly bool) string {
 			}
 		}
 	}
-	return "ok " + act.String() + " T:" + csv(topics, "-")
+	// the OpenAPI document: operations (path grouping, parameters, body, response, references) and the
+	// references inside the components, against the model's document (Pipe/SwaggerDoc.lean)
+	w := "W:! X:!"
+	if co.swagger != nil {
+		out.stage("swagger-summary")
+		w = swaggerSummary(out, spec, co.swagger)
+	}
+	return "ok " + act.String() + " T:" + csv(topics, "-") + " " + w
 }
 
 // shadowedName: a declared schema whose name is also the hoisted name of an inline field of some
